@@ -20,7 +20,7 @@ EXPLANATION = (
     'TT stores a ply-independent value (read at another ply the score is that of the same n); every mate score of the domain is '
     'classified by isWinScore / isLoseScore and fits the 16-bit score field.'
     ' (2) a score found by searching after a null move leaves negaScout only after it was shown not to be a win score; (3) the check-evasion generator is complete (a node in check without evasions is scored as mate).'
-    ' Added later; (6) every TranspositionTable insert in negaScout is guarded by the flag derived from the singular-move test (unrestricted search). (7) forward-pruning skips in the move loop require a non-losing running maximum.')
+    ' Added later; (6) every TranspositionTable insert in negaScout is guarded by the flag derived from the singular-move test (unrestricted search). (7) forward-pruning skips in the move loop require a non-losing running maximum. (8) a move deferred by the ABDADA first pass (marked BUSY - reduction) is not skipped by the second pass, for every reduction 0..15.')
 UNDECIDED = ('that a reported mate exists (game-tree semantics); soundness of pruning near mate scores (a rule "every pruning is guarded '
              'by normalBound" would also fire on removing a provably redundant conjunct, i.e. on a behaviour-preserving edit - declined).')
 ASSUMPTIONS = ['domain: mates in 0..60 moves at plies 0..40 (covers every distance an 8-bit tablebase state or a search line can encode)']
@@ -51,6 +51,7 @@ def run(fb, rep, tier):
     C08.restore_ply_agreement(fb, rep, 'C04.5')
     c6_no_store_from_restricted_search(fb, rep, 'C04.6')
     c7_pruning_needs_alternative(fb, rep, 'C04.7')
+    c8_deferred_moves_retried(fb, rep, 'C04.8')
 
 
 def encoders(fb, rep, clause):
@@ -795,3 +796,69 @@ def c7_pruning_needs_alternative(fb, rep, clause):
             rep.ob(clause, 'K4 guard', '%s: forward-pruning skip #%d in the move loop requires a non-losing alternative (!isLoseScore of the running maximum)' % (f.name.replace('Search::', ''), k),
                    ok, '%s:%s' % (f.file, t.get('ln') or blk.get('ln') or f.line), 'guards %s' % txt[-5:], f.sname)
     rep.floor(clause, 'forward-pruning skips in the move loop of negaScout', n, 2)
+
+
+# ----------------------------------------------------------------------------- .8
+
+def c8_deferred_moves_retried(fb, rep, clause):
+    """K10 writer / reader agreement of the ABDADA deferral mark.  A move whose child is being searched by another thread is
+    not searched in the first pass: its ordering score is overwritten with an encoding of the reduction it was going to get,
+    and the second pass must search exactly those moves, with that reduction.  The mark written (`setScore(f(lmr))`), the
+    second-pass skip test and the decoding of the reduction are evaluated against each other for every reduction 0..15: a
+    marked move must not be skipped in the second pass (a skipped move is never searched in this node, and if it was the
+    only defence the node reports a mate that does not exist), and the decoded reduction must be the encoded one."""
+    busy = fb.const('SearchConst::BUSY')
+    cands = [f for f in fb.funcs.values() if f.has_cfg and f.sname == 'Search::negaScout' and len(f.blocks) > 50]
+    if rep.need(clause, cands, 'Search::negaScout') is None or rep.need(clause, busy, 'SearchConst::BUSY') is None:
+        return
+    has_busy = lambda t: any(isinstance(n, dict) and n.get('q') == 'SearchConst::BUSY' for n in walk(t))
+    n_inst = 0
+    for f in sorted(cands, key=lambda x: x.name):
+        tag = f.name.replace('Search::', '')
+        st = {}
+        ev = Evaluator(fb, stubs={'Move::score': lambda e, t, env, d: st['score']})
+        # the mark
+        marks = [(b, i, e) for b, i, e in f.events() if e.get('k') == 'call' and cname(e) == 'Move::setScore' and e.get('args') and has_busy(e['args'][0])]
+        if rep.need(clause, marks, 'the deferral mark setScore(... BUSY ...) in ' + tag) is None:
+            continue
+        free = {n['id'] for _, _, e in marks for n in walk(e['args'][0]) if isinstance(n, dict) and n.get('k') == 'var' and n.get('vk') == 'local'}
+        if len(free) != 1:
+            rep.broken(clause, '%s: the deferral mark is not a function of one local (the reduction): %d locals' % (tag, len(free)))
+            continue
+        lmr_id = next(iter(free))
+        # the second-pass skip: a `continue` guarded by a comparison of a move's score with BUSY
+        skips = []
+        for bid, blk in sorted(f.blocks.items()):
+            if (blk.get('term') or {}).get('c') != 'ContinueStmt' or bid in f.dead:
+                continue
+            gs = [(c, s) for c, s in G.guard_trees(f, set(f.blocks), bid)]
+            rel = [(c, s) for c, s in gs if has_busy(c) and any(isinstance(n, dict) and n.get('k') == 'call' and cname(n) == 'Move::score' for n in walk(c))]
+            if rel:
+                passv = [(c, s) for c, s in gs if isinstance(_strip4(c), dict) and _strip4(c).get('k') == 'bin' and (_strip4(_strip4(c).get('l')) or {}).get('k') == 'var' and
+                         (_strip4(_strip4(c).get('l')) or {}).get('vk') == 'local' and 'cv' in (_strip4(_strip4(c).get('r')) or {}) and _strip4(c).get('op') in ('>', '>=', '!=', '==')]
+                skips.append((bid, rel, passv))
+        if rep.need(clause, skips, 'the second-pass skip test on the deferral mark in ' + tag) is None:
+            continue
+        # the decoder: an assignment to the reduction local from a move's score and BUSY
+        decs = [(b, i, e) for b, i, e in f.events() if e.get('k') == 'asg' and e.get('op') == '=' and (_strip4(e.get('l')) or {}).get('id') == lmr_id and has_busy(e.get('r'))]
+        n_inst += 1
+        bad_skip, bad_dec = [], []
+        try:
+            for lmr in range(0, 16):
+                for b, i, e in marks:
+                    enc = ev.eval(e['args'][0], {('v', lmr_id): lmr})
+                    st['score'] = enc
+                    for bid, rel, passv in skips:
+                        if all(bool(ev.eval(c, {})) == s for c, s in rel):
+                            bad_skip.append('reduction %d is marked %d, which the second pass skips' % (lmr, enc))
+                    for db, di, de in decs:
+                        got = ev.eval(de['r'], {})
+                        if got != lmr:
+                            bad_dec.append('reduction %d is marked %d and read back as %d' % (lmr, enc, got))
+        except Unknown as u:
+            rep.broken(clause, '%s: deferral mark / skip test not evaluable: %s' % (tag, u))
+            continue
+        rep.ob(clause, 'K10 encoding', '%s: a move deferred in the first pass (any reduction 0..15) is searched in the second pass' % tag, not bad_skip,
+               '%s:%s' % (f.file, (f.blocks[skips[0][0]].get('term') or {}).get('ln') or f.line), '; '.join(bad_skip[:3]) or 'mark BUSY - lmr <= BUSY, skip test true only above', f.sname)
+        rep.extra.setdefault('abdada_decoder_agreement', {})[tag] = 'reduction read back equals the one encoded' if decs and not bad_dec else ('; '.join(bad_dec[:3]) or 'no decoder found')
+    rep.floor(clause, 'negaScout instantiations with an ABDADA deferral', n_inst, 2)
